@@ -55,7 +55,7 @@ def gen_profile(rng, big=False):
             "hmax": rng.choice([20000.0, 25000.0, rng.uniform(5000, 30000)]), "fill": rng.randrange(10 ** 6),
             "decades": rng.choice([0, 1, 3, 6]), "wind": rng.chance(0.6),
             # how the caller holds the profile: dtype and memory layout are the caller's business
-            "h_int": rng.chance(0.1), "strided": rng.chance(0.15), "readonly": rng.chance(0.15)}
+            "h_int": rng.chance(0.1), "w_int": rng.chance(0.25), "strided": rng.chance(0.15), "readonly": rng.chance(0.15)}
 
 
 def gen_plan(rng, tier, index=0):
@@ -124,6 +124,8 @@ def build_profile(sp):
             h[i] = h[i - 1] + 1.0
     p = 10.0 ** rs.uniform(-sp["decades"] / 2.0, sp["decades"] / 2.0, N) * 1e-15
     w = rs.uniform(1.0, 40.0, N) if sp["wind"] else None
+    if sp.get("w_int") and w is not None:
+        w = numpy.round(w).astype("int64")          # whole metres per second
     if sp.get("h_int"):
         h = numpy.round(h).astype("int64")
         for i in range(1, N):
@@ -350,6 +352,22 @@ def execute(plan, keep_log=False):
     seams.reset_ambient(plan["ambient"])
     profs = [build_profile(sp) for sp in plan["profiles"]]
     hist = []           # classes of what happened to the global RNG since the start
+    held = []           # arrays returned by earlier calls: they belong to the caller and must never change afterwards
+
+    def hold(si_, name, out_):
+        for k_, a_ in enumerate(out_ if isinstance(out_, (tuple, list)) else [out_]):
+            if isinstance(a_, numpy.ndarray):
+                held.append((si_, name, k_, a_, screens.abytes(a_)))
+
+    def check_held(si_, name_now):
+        for (s0, n0, k0, a0, b0) in held:
+            if screens.abytes(a0) != b0:
+                res.violate("hidden-state", "C18:%s:returned-arrays-changed-by-a-later-call" % n0,
+                            "output %d of %s (step %d) was modified when %s ran at step %d: the library kept and reused the array it had returned"
+                            % (k0, n0, s0, name_now, si_), si_)
+                held[:] = [h_ for h_ in held if h_[3] is not a0]
+                break
+
     for si, st in enumerate(plan["steps"]):
         res.steps += 1
         if "noise" in st:
@@ -396,6 +414,8 @@ def execute(plan, keep_log=False):
                 continue
             log.add(si, "og", pi, L, st["R"], core.harr(numpy.asarray(out[0], dtype=float)), core.harr(numpy.asarray(out[1], dtype=float)))
             check_og(res, si, h, p, L, out, hist_cls, stub["policy"] if stub else None)
+            check_held(si, "optimal_grouping")
+            hold(si, "optimal_grouping", out)
             if hist:
                 res.sig("og", N, L, sp["kind"], hist_cls, stub["policy"] if stub else None, st["R"] > 0)
             if st["R"] > 0:
@@ -417,6 +437,8 @@ def execute(plan, keep_log=False):
                 continue
             log.add(si, "eq", pi, L, [core.harr(numpy.asarray(x)) for x in out])
             check_eq(res, si, h, p, ww, L, out)
+            check_held(si, "equivalent_layers")
+            hold(si, "equivalent_layers", out)
             if hist:
                 res.sig("eq", N, L, sp["kind"], bool(ww is not None))
             hist.append("eq")
@@ -448,6 +470,8 @@ def execute(plan, keep_log=False):
                 continue
             oh, oc = numpy.asarray(out[0], dtype=float), numpy.asarray(out[1], dtype=float)
             log.add(si, "gctm", pi, L, core.harr(oh), core.harr(oc))
+            check_held(si, "GCTM")
+            hold(si, "GCTM", out)
             if oh.shape != (L,) or oc.shape != (L,):
                 res.violate("count", "C18:GCTM:not-L-layers", "GCTM(N=%d, L=%d) returned %d layers" % (N, L, oc.size), si)
                 continue
